@@ -149,6 +149,106 @@ fn check_gate(case: &GateCase) -> CaseResult {
         .label_if(done_while_at_gate, "mark_as_done_inside_check_wait_window"))
 }
 
+#[derive(Clone, Debug, Serialize, Deserialize)]
+struct CoopCase {
+    submitters: Vec<u8>,
+    /// (pick among enabled moves, cooperative budget the picked submitter is polled with).
+    schedule: Vec<(u16, u8)>,
+}
+
+/// Like `check_gate`, but the actors are polled *inside* a tokio runtime with a generated
+/// cooperative-scheduling budget: with `k` units left, the (k+1)-th tokio primitive a submitter
+/// touches in that poll (lock acquire, notification) yields instead of proceeding. Every await on a
+/// tokio primitive inside `track`/`ready` thereby becomes a preemption point the schedule can
+/// choose – without any hook – exactly as it is one on a loaded runtime.
+fn check_coop(case: &CoopCase) -> CaseResult {
+    let rt = tokio::runtime::Builder::new_current_thread().enable_all().build().map_err(|e| e.to_string())?;
+    rt.block_on(async {
+        let tracker: TaskTracker<R, u8> = TaskTracker::new();
+        let queue: RefCell<VecDeque<u8>> = RefCell::new(VecDeque::new());
+        verif_gate::enable(true);
+        let take = || verif_gate::take_last();
+        let mut actors: Vec<Actor<'_, R>> = case
+            .submitters
+            .iter()
+            .enumerate()
+            .map(|(i, id)| {
+                let tracker = tracker.clone();
+                let queue = &queue;
+                let id = *id;
+                Actor::new(format!("submitter{i}(id={id})"), async move {
+                    let task = tracker.track(id).await;
+                    queue.borrow_mut().push_back(id);
+                    task.ready().await
+                })
+            })
+            .collect();
+        let mut serial = 0u32;
+        let mut trace: Vec<String> = Vec::new();
+        let mut preempted = 0usize;
+        let mut steps = case.schedule.iter();
+        let mut guard = 0;
+        loop {
+            guard += 1;
+            ensure!(guard < 10_000, "coop run did not terminate");
+            // Root yield: flushes deferred (budget) wake-ups and gives this poll a fresh budget of 128.
+            tokio::task::yield_now().await;
+            let runnable: Vec<usize> = (0..actors.len()).filter(|i| actors[*i].runnable()).collect();
+            let completer_enabled = !queue.borrow().is_empty();
+            let moves = runnable.len() + usize::from(completer_enabled);
+            if moves == 0 {
+                break;
+            }
+            // After the generated schedule: fair drain (completer first, full budget).
+            let (pick, budget) = steps.next().copied().unwrap_or((u16::MAX, 200));
+            let m = idx(pick, moves);
+            if m < runnable.len() {
+                let a = runnable[m];
+                if budget < 120 {
+                    for _ in 0..(128 - budget as usize) {
+                        if !tokio::task::coop::has_budget_remaining() {
+                            break;
+                        }
+                        tokio::task::consume_budget().await;
+                    }
+                }
+                let st = actors[a].step(&take);
+                if !tokio::task::coop::has_budget_remaining() && !matches!(st, ActorState::Done) {
+                    preempted += 1;
+                }
+                trace.push(format!("{}[budget {}] -> {:?}", actors[a].name, budget, st));
+            } else {
+                let id = queue.borrow_mut().pop_front().expect("enabled");
+                serial += 1;
+                trace.push(format!("mark_as_done({id})"));
+                tracker.mark_as_done(id, (id, serial)).await;
+            }
+        }
+        verif_gate::enable(false);
+        for (i, a) in actors.iter_mut().enumerate() {
+            if !a.is_done() {
+                return Err(format!(
+                    "lost submission: {} never finishes (state {:?}) although every queued input was marked done; trace: {}",
+                    a.name,
+                    a.state,
+                    trace.join("; ")
+                ));
+            }
+            let (rid, _) = *a.stepper.output().expect("done actor has output");
+            ensure_eq!(rid, case.submitters[i], "{} returned the result of another id", a.name);
+        }
+        let mut c = [0; 2];
+        for s in &case.submitters {
+            c[(*s & 1) as usize] += 1;
+        }
+        let same_id_twice = c.iter().any(|n| *n >= 2);
+        Ok(CaseOk::nontrivial(preempted > 0 && same_id_twice)
+            .label_if(preempted > 0, "submitter_preempted_at_tokio_primitive")
+            .label_if(preempted >= 3, "three_or_more_preemptions")
+            .label_if(same_id_twice, "same_id_submitted_concurrently"))
+    })
+}
+
 fn gate_case(max_submitters: usize, max_picks: usize) -> impl Strategy<Value = GateCase> {
     (
         prop::collection::vec(0u8..2, 1..=max_submitters),
@@ -272,6 +372,23 @@ pub fn run(mut ctx: Ctx) -> ! {
         .min_nontrivial(0.05),
         || gate_case(4, 24),
         check_gate,
+    );
+    ctx.run_prop(
+        Part::new(
+            "coop_preemption",
+            "1-4 submitters over ids {0,1} hand-polled inside a tokio runtime; each pick also chooses the cooperative budget (0-5 units, or unlimited) the submitter is polled with, so any tokio lock/notify await inside track()/ready() can be the point where it is preempted; moves = runnable submitters + mark_as_done, then a fair drain; non-trivial = a submitter was preempted by the budget and two submitters share an id",
+            3_000,
+            150_000,
+        )
+        .min_nontrivial(0.2),
+        || {
+            (
+                prop::collection::vec(0u8..2, 1..=4),
+                prop::collection::vec((any::<u16>(), prop_oneof![4 => 0u8..6, 1 => Just(200u8)]), 0..=24),
+            )
+                .prop_map(|(submitters, schedule)| CoopCase { submitters, schedule })
+        },
+        check_coop,
     );
     ctx.run_prop(
         Part::new(
